@@ -408,11 +408,18 @@ pub fn canon(s: &Schema) -> Schema {
 
 // ------------------------------------------------------------------ from the real AST
 
+// The text of a comment / doc line is computed here from the RAW token text (`value()`), not through
+// the library's `value_inner()`: the formatter prints through that accessor, so a defect in it would
+// be invisible to an AST comparison that reads both sides through the same accessor.
+fn inner(raw: &str, marker: usize) -> String {
+    let v = raw.get(marker..).unwrap_or("");
+    v.strip_prefix(' ').unwrap_or(v).trim_end().to_owned()
+}
 fn cs(v: &[p::Comment]) -> Vec<String> {
-    v.iter().map(|c| c.value_inner().to_owned()).collect()
+    v.iter().map(|c| inner(c.value(), 2)).collect()
 }
 fn ds(v: &[p::DocString]) -> Vec<String> {
-    v.iter().map(|c| c.value_inner().to_owned()).collect()
+    v.iter().map(|c| inner(c.value(), 3)).collect()
 }
 fn attrs(v: &[p::Attribute]) -> Vec<Attr> {
     v.iter()
